@@ -13,3 +13,4 @@ open CaddyModel.C18
 #print axioms vars_regexp_sees_value_verbatim
 #print axioms vars_matcher_compares_verbatim
 #print axioms vars_regexp_old_code_rescans
+#print axioms unclosed_limit_matches_source
